@@ -1,5 +1,5 @@
-import CardVerif.Spec.Poker5
-import CardVerif.Model.Evaluators
+import CardModel.Spec.Poker5
+import CardModel.Model.Evaluators
 /-!
 # Omaha / Hold'em strength by the rules (C06) and showdown tiers (C07)
 
